@@ -92,6 +92,10 @@ fn main() {
             0
         }
         "selftest" => selftest::selftest(&args[2..]),
+        "handshakes" => {
+            cellsim::handshake_survey(args.get(2).and_then(|s| s.parse().ok()).unwrap_or(50));
+            0
+        }
         // the Miri phase of `check C16 thorough` on its own: simctl miri <processes> <rounds>
         "miri" => {
             let procs = args.get(2).and_then(|s| s.parse().ok()).unwrap_or(4);
